@@ -50,7 +50,10 @@ func (p *Parser) ParsePackages(ctx context.Context, packageNames []string) ([]*c
 		pkgLog := log.With().Str("package", pkg.PkgPath).Logger()
 		pkgCtx := pkgLog.WithContext(ctx)
 
-		if len(pkg.GoFiles) == 0 {
+		if len(pkg.GoFiles) == 0 && hasSubPackage(pkg.PkgPath, packageNames) {
+			// A package without Go files of its own that merely roots other
+			// configured packages (e.g. a recursive package whose directory
+			// only holds sub-directories) is not a load failure.
 			continue
 		}
 		for _, err := range pkg.Errors {
@@ -58,6 +61,9 @@ func (p *Parser) ParsePackages(ctx context.Context, packageNames []string) ([]*c
 		}
 		if len(pkg.Errors) != 0 {
 			return nil, errors.New("error occurred when loading packages")
+		}
+		if len(pkg.GoFiles) == 0 {
+			continue
 		}
 		for fileIdx, file := range pkg.GoFiles {
 			fileLog := pkgLog.With().Str("file", file).Logger()
@@ -109,4 +115,14 @@ func (p *Parser) ParsePackages(ctx context.Context, packageNames []string) ([]*c
 		}
 	}
 	return interfaces, nil
+}
+
+// hasSubPackage reports whether any of the given package names lies below pkgPath.
+func hasSubPackage(pkgPath string, packageNames []string) bool {
+	for _, name := range packageNames {
+		if strings.HasPrefix(name, pkgPath+"/") {
+			return true
+		}
+	}
+	return false
 }
